@@ -2,6 +2,17 @@
 import html.entities, json
 from . import core, tmplgen as tg, mutate, render, update as up, exprgen as eg
 
+THM_EXPR = [
+    "GE.Str.str_derives",
+    "GE.Str.body_ok",
+    "GE.Str.unArm_ok",
+    "GE.Str.binArm_ok",
+    "GE.Str.condArm_ok",
+    "GE.Str.member_kinds",
+    "GE.Str.member_arms_ok",
+    "GE.Str.paren_rule_ok",
+    "GE.Str.parse_chain_matches_wLevel",
+]
 THEOREMS = [
     "GE.Esc.decode_escBody",
     "GE.Esc.decode_escQuote",
@@ -75,10 +86,12 @@ def run(chk):
     chk.trusted = ["Lean 4.33 kernel", "axioms ⊆ {propext, Classical.choice, Quot.sound}",
                    "GE/Model/Escape.lean tied to escape.rs and parse_next_entity by differential runs through cfg hooks; named references from html.entities.html5",
                    "real ProcGenWrapper under node 22 with a stub backend as the meaning of 'behaves identically'"]
-    chk.assumptions = ["PARTIAL: proved = every string survives escape + entity decoding unchanged and the escaped text cannot end its context "
-                       "(decode_escBody, decode_escQuote, *_safe). That the expression printer re-creates the same tree (parenthesisation by level), that "
-                       "mixed values are split back into the same pieces and that scope names are mangled consistently is established by the oracle only"]
-    chk.model_tie([("GE.Thm.C14", THEOREMS)], regen=False)
+    chk.assumptions = ["PARTIAL: proved = (1) str_derives: the tokens printed for any binding expression derive exactly that expression in the WXML expression grammar whose "
+                       "precedence levels are the parser's (parse_left_to_right! chain, re-extracted; parse_chain_matches_wLevel), so parenthesisation by ExpressionLevel is "
+                       "sufficient for every nesting; (2) every string survives escape + entity decoding unchanged and the escaped text cannot end its context "
+                       "(decode_escBody, decode_escQuote, *_safe). NOT proved: that the parser inverts the grammar (checked by the oracle: parser tree == intended tree, C03), "
+                       "that mixed values are split back into the same pieces, the {{ protection, the tag / attribute printer and scope-name mangling (oracle only)"]
+    chk.model_tie([("GE.Thm.C14", THEOREMS), ("GE.Thm.C14Expr", THM_EXPR)])
     rng = chk.rng.fork("c14")
     # ---- (model) escaping and entity decoding ---------------------------------------------------------
     alpha = ["<", ">", "&", "\"", "'", ";", "#", "x", "a", "l", "t", "m", "p", "q", "u", "o", "1", "2", "{", "}", " ", "é", "\U0001F600", "&amp;", "&lt;", "&quot;", "&#60;",
@@ -100,6 +113,39 @@ def run(chk):
         core.diff_streams(chk, "entity-decode", dreqs, real, core.run_driver(dreqs))
     else:
         chk.notes.append("harness has no static_value op: entity scanner correspondence skipped")
+    # ---- (model) the expression printer ----------------------------------------------------------------------
+    trees = eg.enum_depth2()
+    er = rng.fork("expr-str")
+    for i in range(1500 if quick else 30000):
+        trees.append(eg.rand_tree(er, 2 + i % 3, 0))
+    esrcs = []
+    for t_ in trees:
+        try:
+            esrcs.append(eg.src(t_, er.choice(["min", "full", "rand"]), er))
+        except Exception:
+            pass
+    parsed = core.run_harness([core.req("expr", e, "", "0") for e in esrcs])
+    preqs, mreqs = [], []
+    for e, a in zip(esrcs, parsed):
+        f = a.split("\t")
+        if a.startswith("PANIC") or f[0] == "none" or "\n" in e:
+            continue
+        preqs.append(core.req("expr_str", e))
+        mreqs.append(core.req("expr_str", core.unesc(f[0])))
+    real_p = core.run_harness(preqs)
+    model_p = core.run_driver(mreqs)
+    nd = 0
+    for rq, a, m in zip(preqs, real_p, model_p):
+        chk.disagreements_checked += 1
+        if a.startswith("not-a-single-binding"):
+            continue       # a literal-only binding is printed as text by the value printer, not by the expression printer
+        if m is not None and a != m:
+            nd += 1
+            if nd <= 5:
+                chk.violation("correspondence", f"expression printer: model prints {core.unesc(m)[:120]!r}, implementation {core.unesc(a)[:120]!r}", stream="expr_str",
+                              request=rq, real=a, model=m)
+    chk.bump("corr:expr_str:cases", len(preqs))
+    chk.bump("corr:expr_str:diffs", nd)
     # ---- oracle -------------------------------------------------------------------------------------------
     n = 300 if quick else 6000
     srcs = []
